@@ -3,6 +3,10 @@
 //! builder can express the shape, through the public constructors otherwise) whose leaves are the
 //! tracing components below, runs `Configuration::run` on a prepared `State` and prints the trace,
 //! the result, the scope depth and a dump of every scope.
+//! `scopew` nodes are `Scope::new_with` with scripted, tracing `state_init` / `states_merge` hooks;
+//! `(via alt)` builds the same tree through the other public construction paths (`do_many_`,
+//! `do_if_some_`, `Block::new`, `From<Vec<_>>`, the `& | !` operators, `Configuration::from`,
+//! `into_inner`) and runs a clone; `(via opt)` runs it through `Configuration::optimize_with`.
 use std::collections::{HashMap, HashSet};
 use std::sync::{Arc, Mutex};
 
@@ -11,7 +15,7 @@ use derive_more::{Deref, DerefMut};
 use eyre::eyre;
 use hcommon::problems::TagProblem;
 use hcommon::*;
-use mahf::components::{Branch, Loop, Scope};
+use mahf::components::{Block, Branch, Loop, Scope};
 use mahf::conditions::{And, Not, Or};
 use mahf::configuration::ConfigurationBuilder;
 use mahf::state::common::Iterations;
@@ -77,9 +81,9 @@ struct TraceLeaf {
     #[serde(skip)]
     sh: Sh,
 }
-impl TraceLeaf {
-    fn apply(&self, ph: u8, state: &mut State<P>) {
-        for a in &self.acts {
+fn apply_acts(acts: &[Act], ph: u8, state: &mut State<P>) {
+    {
+        for a in acts {
             match *a {
                 Act::Ins(p, k, v) if p == ph => match k {
                     0 => { state.insert(Iterations(v as u32)); }
@@ -107,7 +111,7 @@ impl TraceLeaf {
 impl Component<P> for TraceLeaf {
     fn init(&self, _: &P, state: &mut State<P>) -> ExecResult<()> {
         if self.sh.lock().unwrap().hit(0, self.id).1 { return Err(fail(0, self.id)); }
-        self.apply(0, state);
+        apply_acts(&self.acts, 0, state);
         Ok(())
     }
     fn require(&self, _: &P, req: &StateReq<P>) -> ExecResult<()> {
@@ -127,7 +131,7 @@ impl Component<P> for TraceLeaf {
     }
     fn execute(&self, _: &P, state: &mut State<P>) -> ExecResult<()> {
         if self.sh.lock().unwrap().hit(2, self.id).1 { return Err(fail(2, self.id)); }
-        self.apply(2, state);
+        apply_acts(&self.acts, 2, state);
         Ok(())
     }
 }
@@ -155,6 +159,87 @@ impl Condition<P> for ScriptCond {
             Some((d, vs)) => vs.get(occ as usize).copied().unwrap_or(*d),
             None => false,
         })
+    }
+}
+
+// ---------------------------------------------------------------- scripted hooks of `Scope::new_with`
+// `Scope` takes plain `fn` pointers, so the hooks cannot capture anything: every hooked scope of the
+// tree being built gets one of `SLOTS` monomorphic functions, which look their script up in `HOOKS`.
+#[derive(Clone)]
+struct Hook { id: u64, si: Vec<Act>, mg: Vec<(u64, u64)>, sh: Sh }
+const SLOTS: usize = 12;
+static HOOKS: Mutex<Vec<Hook>> = Mutex::new(Vec::new());
+
+fn hook(slot: usize) -> Hook {
+    HOOKS.lock().unwrap()[slot].clone()
+}
+/// `state_init`: records `(init, id)`, may fail, otherwise performs the `init` actions on the child state.
+fn state_init<const S: usize>(state: &mut State<P>) -> ExecResult<()> {
+    let h = hook(S);
+    if h.sh.lock().unwrap().hit(0, h.id).1 { return Err(fail(0, h.id)); }
+    apply_acts(&h.si, 0, state);
+    Ok(())
+}
+/// `states_merge`: records `(exec, id)`, may fail, otherwise `parent.insert(Kb(child.Ka))` for every
+/// `(a, b)` whose `Ka` the (detached) child holds.
+fn states_merge<const S: usize>(parent: &mut State<P>, child: State<P>) -> ExecResult<()> {
+    let h = hook(S);
+    if h.sh.lock().unwrap().hit(2, h.id).1 { return Err(fail(2, h.id)); }
+    for (a, b) in &h.mg {
+        let v: Option<u64> = match a {
+            0 => child.try_get_value::<Iterations>().ok().map(|v| v as u64),
+            1 => child.try_get_value::<K1>().ok(),
+            2 => child.try_get_value::<K2>().ok(),
+            _ => child.try_get_value::<K3>().ok(),
+        };
+        if let Some(v) = v {
+            match b {
+                0 => { parent.insert(Iterations(v as u32)); }
+                1 => { parent.insert(K1(v)); }
+                2 => { parent.insert(K2(v)); }
+                _ => { parent.insert(K3(v)); }
+            }
+        }
+    }
+    Ok(())
+}
+type InitFn = fn(&mut State<P>) -> ExecResult<()>;
+type MergeFn = fn(&mut State<P>, State<P>) -> ExecResult<()>;
+const INITS: [InitFn; SLOTS] = [state_init::<0>, state_init::<1>, state_init::<2>, state_init::<3>, state_init::<4>,
+    state_init::<5>, state_init::<6>, state_init::<7>, state_init::<8>, state_init::<9>, state_init::<10>, state_init::<11>];
+const MERGES: [MergeFn; SLOTS] = [states_merge::<0>, states_merge::<1>, states_merge::<2>, states_merge::<3>,
+    states_merge::<4>, states_merge::<5>, states_merge::<6>, states_merge::<7>, states_merge::<8>, states_merge::<9>,
+    states_merge::<10>, states_merge::<11>];
+
+fn parse_act(t: &Sx) -> Act {
+    let (k, v) = t.head().unwrap();
+    match k {
+        "ins" => Act::Ins(ph_of(v[0].atom().unwrap()), v[1].nat().unwrap(), v[2].nat().unwrap()),
+        "set" => Act::Set(ph_of(v[0].atom().unwrap()), v[1].nat().unwrap(), v[2].nat().unwrap()),
+        "rem" => Act::Rem(ph_of(v[0].atom().unwrap()), v[1].nat().unwrap()),
+        "need" => Act::Need(v[0].nat().unwrap()),
+        _ => panic!("bad act"),
+    }
+}
+/// `(scopew id (sinit act*) (merge (mv a b)*) T)` → the real hooked scope.
+fn hooked_scope(a: &[Sx], sh: &Sh, alt: bool) -> Box<dyn Component<P>> {
+    let id = a[0].nat().unwrap();
+    let si = a[1].head().unwrap().1.iter().map(parse_act).collect();
+    let mg = a[2].head().unwrap().1.iter().map(|m| {
+        let v = m.head().unwrap().1;
+        (v[0].nat().unwrap(), v[1].nat().unwrap())
+    }).collect();
+    let slot = {
+        let mut g = HOOKS.lock().unwrap();
+        g.push(Hook { id, si, mg, sh: sh.clone() });
+        g.len() - 1
+    };
+    assert!(slot < SLOTS, "too many hooked scopes in one tree");
+    if is_blk(&a[3]) {
+        let body: Vec<Box<dyn Component<P>>> = kids(&a[3]).iter().map(|k| comp_how(k, sh, alt)).collect();
+        Scope::new_with(INITS[slot], body, MERGES[slot])
+    } else {
+        Scope::new_with(INITS[slot], comp_how(&a[3], sh, alt), MERGES[slot])
     }
 }
 
@@ -196,16 +281,7 @@ fn comp(x: &Sx, sh: &Sh) -> Box<dyn Component<P>> {
     let (h, a) = x.head().expect("node");
     match h {
         "leaf" => {
-            let acts = a[1..].iter().map(|t| {
-                let (k, v) = t.head().unwrap();
-                match k {
-                    "ins" => Act::Ins(ph_of(v[0].atom().unwrap()), v[1].nat().unwrap(), v[2].nat().unwrap()),
-                    "set" => Act::Set(ph_of(v[0].atom().unwrap()), v[1].nat().unwrap(), v[2].nat().unwrap()),
-                    "rem" => Act::Rem(ph_of(v[0].atom().unwrap()), v[1].nat().unwrap()),
-                    "need" => Act::Need(v[0].nat().unwrap()),
-                    _ => panic!("bad act"),
-                }
-            }).collect();
+            let acts = a[1..].iter().map(parse_act).collect();
             Box::new(TraceLeaf { id: a[0].nat().unwrap(), acts, sh: sh.clone() })
         }
         "blk" => fill(Configuration::builder(), a, sh).build_component(),
@@ -219,7 +295,53 @@ fn comp(x: &Sx, sh: &Sh) -> Box<dyn Component<P>> {
                 Scope::new_with(|_| Ok(()), comp(&a[0], sh), |_, _| Ok(()))
             }
         }
+        "scopew" => hooked_scope(a, sh, false),
         _ => panic!("bad node {h}"),
+    }
+}
+
+// ---------------------------------------------------------------- the other public construction paths
+fn comp_how(x: &Sx, sh: &Sh, alt: bool) -> Box<dyn Component<P>> {
+    if alt { comp_alt(x, sh) } else { comp(x, sh) }
+}
+/// Conditions through the `&`, `|`, `!` operators where the arity allows it.
+fn cond_alt(x: &Sx, sh: &Sh) -> Box<dyn Condition<P>> {
+    let (h, a) = x.head().expect("cond");
+    match h {
+        "and" if a.len() == 2 => cond_alt(&a[0], sh) & cond_alt(&a[1], sh),
+        "or" if a.len() == 2 => cond_alt(&a[0], sh) | cond_alt(&a[1], sh),
+        "and" => And::new(a.iter().map(|c| cond_alt(c, sh)).collect::<Vec<_>>()),
+        "or" => Or::new(a.iter().map(|c| cond_alt(c, sh)).collect::<Vec<_>>()),
+        "not" => !cond_alt(&a[0], sh),
+        _ => cond(x, sh),
+    }
+}
+/// A block's children through `do_many_` / `do_if_some_` (with `None`s in between) / `Block::new`.
+fn block_alt(xs: &[Sx], sh: &Sh) -> Box<dyn Component<P>> {
+    match xs.len() % 3 {
+        0 => Block::new(xs.iter().map(|k| comp_alt(k, sh))),
+        1 => Configuration::builder().do_many_(xs.iter().map(|k| comp_alt(k, sh)).collect::<Vec<_>>()).build_component(),
+        _ => {
+            let mut b = Configuration::builder().do_if_some_(None);
+            for k in xs { b = b.do_if_some_(Some(comp_alt(k, sh))).do_if_some_(None); }
+            b.build_component()
+        }
+    }
+}
+fn body_alt(x: &Sx, sh: &Sh) -> Box<dyn Component<P>> {
+    // a `Vec` body goes through `From<IntoIterator> for Box<dyn Component>`
+    if is_blk(x) { kids(x).iter().map(|k| comp_alt(k, sh)).collect::<Vec<_>>().into() } else { comp_alt(x, sh) }
+}
+fn comp_alt(x: &Sx, sh: &Sh) -> Box<dyn Component<P>> {
+    let (h, a) = x.head().expect("node");
+    match h {
+        "blk" => block_alt(a, sh),
+        "while" => Loop::new(cond_alt(&a[0], sh), body_alt(&a[1], sh)),
+        "if" => Branch::new(cond_alt(&a[0], sh), body_alt(&a[1], sh)),
+        "ifelse" => Branch::new_with_else(cond_alt(&a[0], sh), body_alt(&a[1], sh), body_alt(&a[2], sh)),
+        "scope" => Scope::new_with(|_| Ok(()), body_alt(&a[0], sh), |_, _| Ok(())),
+        "scopew" => hooked_scope(a, sh, true),
+        _ => comp(x, sh),
     }
 }
 
@@ -279,6 +401,7 @@ fn loops_stop(x: &Sx, conds: &HashMap<u64, (bool, Vec<bool>)>) -> bool {
         "while" => !cond_default(&a[0], conds) && loops_stop(&a[1], conds),
         "if" => loops_stop(&a[1], conds),
         "ifelse" => loops_stop(&a[1], conds) && loops_stop(&a[2], conds),
+        "scopew" => loops_stop(&a[3], conds),
         _ => loops_stop(&a[0], conds),
     }
 }
@@ -305,25 +428,37 @@ fn run_case(input: &Sx) -> Ran {
         return Ran { out: "((res illformed))".into(), trace: vec![] };
     }
     let sh: Sh = Arc::new(Mutex::new(shared));
+    HOOKS.lock().unwrap().clear();
+    let via = parts.get(3).and_then(|v| v.head()).and_then(|(_, a)| a.first()).and_then(|v| v.atom()).unwrap_or("run");
     // the prepared caller state
-    let mut state: State<P> = State::new();
-    for op in parts[2].head().unwrap().1 {
-        let (h, a) = op.head().unwrap();
-        match h {
-            "ins" => {
-                let v = a[1].nat().unwrap();
-                match a[0].nat().unwrap() {
-                    0 => { state.insert(Iterations(v as u32)); }
-                    1 => { state.insert(K1(v)); }
-                    2 => { state.insert(K2(v)); }
-                    _ => { state.insert(K3(v)); }
+    fn prepare<'a>(mut state: State<'a, P>, ops: &[Sx]) -> State<'a, P> {
+        for op in ops {
+            let (h, a) = op.head().unwrap();
+            match h {
+                "ins" => {
+                    let v = a[1].nat().unwrap();
+                    match a[0].nat().unwrap() {
+                        0 => { state.insert(Iterations(v as u32)); }
+                        1 => { state.insert(K1(v)); }
+                        2 => { state.insert(K2(v)); }
+                        _ => { state.insert(K3(v)); }
+                    }
                 }
+                "push" => { state = State::from(StateRegistry::from(state).into_child()); }
+                _ => panic!("bad pre op"),
             }
-            "push" => { state = State::from(StateRegistry::from(state).into_child()); }
-            _ => panic!("bad pre op"),
         }
+        state
     }
-    let config: Configuration<P> = if is_blk(tree) {
+    let pre_ops = parts[2].head().unwrap().1;
+    let mut state: State<P> = if via == "opt" { State::new() } else { prepare(State::new(), pre_ops) };
+    let config: Configuration<P> = if via == "alt" {
+        // the other construction paths; then `into_inner` / `From<Box<dyn Component>>`, and a clone is what runs
+        let original = Configuration::new(comp_alt(tree, &sh)).into_inner();
+        let copy = original.clone();   // `dyn_clone` of the whole tree (`Configuration: Clone` would need `P: Clone`)
+        drop(original);
+        Configuration::from(copy)
+    } else if is_blk(tree) {
         fill(Configuration::builder(), kids(tree), &sh).build()
     } else {
         Configuration::new(comp(tree, &sh))
@@ -332,18 +467,42 @@ fn run_case(input: &Sx) -> Ran {
     let built = hcommon::sertree::to_sexp(config.heuristic()).ok().and_then(|t| Sx::parse(&t)).map(|t| built_node(&t))
         .unwrap_or_else(|| "unserialisable".to_string());
     let problem = TagProblem;
-    let res = match catch(|| config.run(&problem, &mut state)) {
+    let mut lost = false;
+    let outcome = if via == "opt" {
+        // `optimize_with` creates the state itself; the prepared caller state goes in through `init_state`
+        assert!(!pre_ops.iter().any(|o| matches!(o.head(), Some(("push", _)))), "(via opt) cannot pre-push scopes");
+        match catch(|| config.optimize_with(&problem, |st| {
+            let taken = std::mem::take(st);
+            *st = prepare(taken, pre_ops);
+            Ok(())
+        })) {
+            None => None,
+            Some(Ok(st)) => { state = st; Some(Ok(())) }
+            Some(Err(e)) => { lost = true; Some(Err(e)) }
+        }
+    } else {
+        catch(|| config.run(&problem, &mut state))
+    };
+    let res = match outcome {
         None => "panic".to_string(),
         Some(Ok(())) => "ok".to_string(),
         Some(Err(e)) => {
-            let m = e.to_string();
-            let w: Vec<&str> = m.split(' ').collect();
-            if w.len() == 3 && w[0] == "L" && PH.contains(&w[1]) && w[2].parse::<u64>().is_ok() {
-                format!("(err {} {})", w[1], w[2])
-            } else if e.downcast_ref::<StateError>().is_some() {
-                "counter".to_string()
-            } else {
-                "(err other)".to_string()
+            // which leaf failed in which phase: the scripted error may have been given context on its
+            // way up, so every link of the chain is looked at (error messages themselves are not compared)
+            let mut found = None;
+            let mut state_error = e.downcast_ref::<StateError>().is_some();
+            for cause in e.chain() {
+                let m = cause.to_string();
+                let w: Vec<&str> = m.split(' ').collect();
+                if w.len() == 3 && w[0] == "L" && PH.contains(&w[1]) && w[2].parse::<u64>().is_ok() {
+                    found = Some(format!("(err {} {})", w[1], w[2]));
+                }
+                if cause.downcast_ref::<StateError>().is_some() { state_error = true; }
+            }
+            match found {
+                Some(f) => f,
+                None if state_error => "counter".to_string(),
+                None => "(err other)".to_string(),
             }
         }
     };
@@ -362,8 +521,8 @@ fn run_case(input: &Sx) -> Ran {
     let out = list([
         tagged("trace", trace.iter().map(|(p, i)| format!("({} {})", PH[*p as usize], i))),
         format!("(res {res})"),
-        format!("(depth {})", scopes.len()),
-        tagged("dump", scopes),
+        if lost { "(depth -)".to_string() } else { format!("(depth {})", scopes.len()) },
+        if lost { "(dump -)".to_string() } else { tagged("dump", scopes) },
         format!("(built {built})"),
     ]);
     Ran { out, trace }
@@ -426,13 +585,42 @@ fn seqs(total: usize, memo: &mut Vec<Option<Vec<Shape>>>) -> Vec<Vec<Shape>> {
 /// A condition occurrence in a rendered tree: its leaves with their defaults; the first is primary.
 struct CondInfo { leaves: Vec<(u64, bool)> }
 
-struct Ren<'a> { rng: &'a mut Sm, next_leaf: u64, next_cond: u64, conds: Vec<CondInfo>, rich_conds: bool, calm: bool }
-impl Ren<'_> {
+struct Ren<'a> { rng: &'a mut Sm, next_leaf: u64, next_cond: u64, conds: Vec<CondInfo>, rich_conds: bool, calm: bool,
+    /// probability (num, den) that a scope gets scripted hooks (`scopew`); at most `SLOTS` per tree
+    hook_p: (u64, u64), n_hooks: usize }
+impl<'a> Ren<'a> {
+    fn new(rng: &'a mut Sm, rich_conds: bool, calm: bool, hook_p: (u64, u64)) -> Ren<'a> {
+        Ren { rng, next_leaf: 1, next_cond: 101, conds: vec![], rich_conds, calm, hook_p, n_hooks: 0 }
+    }
+    /// Scripts of the two hooks of a `scopew` node.
+    fn hooks(&mut self, id: u64) -> (String, String) {
+        let v = 3 * id;
+        let k = self.rng.range(1, 3);
+        let k2 = self.rng.range(1, 3);
+        let si = match self.rng.below(7) {
+            0 => String::new(),
+            1 | 2 => format!(" (ins init {k} {v})"),
+            3 => format!(" (ins init {k} {v}) (ins init 0 3)"),
+            4 => format!(" (set init {k} {v})"),
+            5 => format!(" (rem init {k})"),
+            _ => format!(" (ins init 1 {v}) (ins init 2 {})", v + 1),
+        };
+        let mg = match self.rng.below(8) {
+            0 => String::new(),
+            1 | 2 => format!(" (mv {k} {k})"),
+            3 => format!(" (mv {k} {k2})"),
+            4 => " (mv 0 3)".to_string(),
+            5 => " (mv 1 1) (mv 2 1)".to_string(),
+            6 => " (mv 0 0)".to_string(),
+            _ => " (mv 3 3) (mv 1 2)".to_string(),
+        };
+        (si, mg)
+    }
     fn acts(&mut self, id: u64) -> String {
         let v = 10 * id;
         let k = self.rng.range(1, 3);
         // large random trees: fewer leaves that make the whole run stop early
-        let pick = if self.calm && self.rng.chance(2, 3) { self.rng.pick(&[0u64, 2, 3, 7, 8, 9, 13, 4]).clone() } else { self.rng.below(16) };
+        let pick = if self.calm && self.rng.chance(2, 3) { self.rng.pick(&[0u64, 2, 3, 7, 8, 9, 13, 4]).clone() } else { self.rng.below(21) };
         match pick {
             0 | 1 => String::new(),
             2 => format!(" (ins exec {k} {v})"),
@@ -448,21 +636,32 @@ impl Ren<'_> {
             12 => format!(" (ins exec 3 {v}) (rem exec 2) (need 1)"),
             13 => format!(" (ins exec 1 {v}) (set exec 1 {}) (ins exec 1 {})", v + 1, v + 2),
             14 => format!(" (rem init {k}) (set exec {k} {v})"),
-            _ => format!(" (ins exec 0 {v})"),
+            15 => format!(" (ins exec 0 {v})"),
+            // the loop counter touched during `init` / required (order of `Loop::init`'s insert vs the body's init)
+            16 => format!(" (set init 0 {v})"),
+            17 => format!(" (ins init 0 {v})"),
+            18 => " (rem init 0)".to_string(),
+            19 => " (need 0)".to_string(),
+            _ => format!(" (need 0) (set exec 0 {v})"),
         }
     }
     /// `neg` = the loop/branch value is the negation of what the leaves below must deliver.
     fn cond(&mut self) -> String {
         let id = self.next_cond;
-        self.next_cond += 2;
-        let form = if self.rich_conds { self.rng.below(10) } else { 0 };
+        self.next_cond += 3;
+        let form = if self.rich_conds { self.rng.below(14) } else { 0 };
         let (s, leaves) = match form {
             0..=4 => (format!("(c {id})"), vec![(id, false)]),
             5 => (format!("(not (c {id}))"), vec![(id, true)]),
             6 => (format!("(and (c {id}) (c {}))", id + 1), vec![(id, false), (id + 1, false)]),
             7 => (format!("(or (c {id}) (c {}))", id + 1), vec![(id, false), (id + 1, false)]),
             8 => (format!("(and (c {id}) (not (c {})))", id + 1), vec![(id, false), (id + 1, true)]),
-            _ => (format!("(not (or (not (c {id})) (c {})))", id + 1), vec![(id, false), (id + 1, true)]),
+            9 => (format!("(not (or (not (c {id})) (c {})))", id + 1), vec![(id, false), (id + 1, true)]),
+            // three operands, empty `And` (= true), one-operand `Or`, empty `Or` (= false)
+            10 => (format!("(and (c {id}) (c {}) (c {}))", id + 1, id + 2), vec![(id, false), (id + 1, false), (id + 2, false)]),
+            11 => (format!("(or (c {id}) (not (c {})) (c {}))", id + 1, id + 2), vec![(id, false), (id + 1, true), (id + 2, false)]),
+            12 => (format!("(and (c {id}) (or (and)))"), vec![(id, false)]),
+            _ => (format!("(or (or) (c {id}))"), vec![(id, false)]),
         };
         self.conds.push(CondInfo { leaves });
         s
@@ -478,18 +677,39 @@ impl Ren<'_> {
             Shape::While(b) => { let c = self.cond(); format!("(while {c} {})", self.node(b)) }
             Shape::If(b) => { let c = self.cond(); format!("(if {c} {})", self.node(b)) }
             Shape::IfElse(a, b) => { let c = self.cond(); format!("(ifelse {c} {} {})", self.node(a), self.node(b)) }
-            Shape::Scope(b) => format!("(scope {})", self.node(b)),
+            Shape::Scope(b) => {
+                if self.n_hooks < SLOTS && self.hook_p.0 > 0 && self.rng.chance(self.hook_p.0, self.hook_p.1) {
+                    let id = 900 + self.n_hooks as u64;
+                    self.n_hooks += 1;
+                    let (si, mg) = self.hooks(id);
+                    format!("(scopew {id} (sinit{si}) (merge{mg}) {})", self.node(b))
+                } else {
+                    format!("(scope {})", self.node(b))
+                }
+            }
         }
     }
 }
 
+fn has_scope(s: &Shape) -> bool {
+    match s {
+        Shape::Leaf => false,
+        Shape::Blk(v) => v.iter().any(has_scope),
+        Shape::While(b) | Shape::If(b) => has_scope(b),
+        Shape::IfElse(a, b) => has_scope(a) || has_scope(b),
+        Shape::Scope(_) => true,
+    }
+}
+
 fn pre(rng: &mut Sm) -> String {
-    match rng.below(6) {
+    match rng.below(7) {
         0 => "(pre)".into(),
         1 => "(pre (ins 1 100))".into(),
         2 => "(pre (ins 1 100) (ins 2 200))".into(),
         3 => "(pre (ins 1 100) (push) (ins 2 200))".into(),
         4 => "(pre (ins 0 7) (ins 1 100) (ins 3 300))".into(),
+        // a loop counter of the caller that is only visible through a lower scope
+        5 => "(pre (ins 0 7) (ins 2 200) (push) (ins 1 100))".into(),
         _ => "(pre (ins 2 200) (push) (ins 1 100) (ins 2 201) (push))".into(),
     }
 }
@@ -502,8 +722,16 @@ fn script_entry(id: u64, default: bool, vals: &[bool]) -> String {
     format!("(cond {id} {}{})", b(default), vals.iter().map(|v| format!(" {}", b(*v))).collect::<String>())
 }
 
-fn case_str(tree: &str, script: &[String], pre: &str) -> String {
-    format!("((tree {tree}) {} {pre})", tagged("script", script.iter().cloned()))
+fn case_str(tree: &str, script: &[String], pre: &str, via: &str) -> String {
+    if via == "run" {
+        format!("((tree {tree}) {} {pre})", tagged("script", script.iter().cloned()))
+    } else {
+        format!("((tree {tree}) {} {pre} (via {via}))", tagged("script", script.iter().cloned()))
+    }
+}
+/// Site suffix of a fault: the phase, `h`-prefixed for the hooks of a `scopew` node (ids from 900).
+fn fault_site(fam: &str, p: u8, id: u64) -> String {
+    if id >= 900 && p != 3 && p != 4 && p != 5 { format!("{fam}-h{}", PH[p as usize]) } else { format!("{fam}-{}", PH[p as usize]) }
 }
 
 struct Emit { out: Out, budget: u64 }
@@ -511,7 +739,18 @@ impl Emit {
     /// Emits the fault-free case and one case per fault point (distinct (phase, id, occurrence) of the
     /// fault-free trace); `max_faults` caps the latter by sampling.
     fn with_faults(&mut self, fam: &str, tree: &str, script: &[String], pre: &str, rng: &mut Sm, max_faults: usize) {
-        let input = case_str(tree, script, pre);
+        self.with_faults_via(fam, "run", tree, script, pre, rng, max_faults)
+    }
+    /// The same tree / script / caller state built and run the other ways (`alt`; `opt` if the caller
+    /// state has a single scope), fault-free and with a few of the fault points.
+    fn other_ways(&mut self, fam: &str, tree: &str, script: &[String], pre: &str, rng: &mut Sm, max_faults: usize) {
+        self.with_faults_via(&format!("{fam}/alt"), "alt", tree, script, pre, rng, max_faults);
+        if !pre.contains("(push)") {
+            self.with_faults_via(&format!("{fam}/opt"), "opt", tree, script, pre, rng, max_faults);
+        }
+    }
+    fn with_faults_via(&mut self, fam: &str, via: &str, tree: &str, script: &[String], pre: &str, rng: &mut Sm, max_faults: usize) {
+        let input = case_str(tree, script, pre, via);
         let r = run_case(&Sx::parse(&input).unwrap());
         self.out.case(fam, &input, &r.out);
         let mut seen: HashMap<(u8, u64), u64> = HashMap::new();
@@ -528,9 +767,9 @@ impl Emit {
         for (p, i, o) in points {
             let mut sc = script.to_vec();
             sc.push(format!("(fail {} {i} {o})", PH[p as usize]));
-            let input = case_str(tree, &sc, pre);
+            let input = case_str(tree, &sc, pre, via);
             let r = run_case(&Sx::parse(&input).unwrap());
-            self.out.case(&format!("{fam}-{}", PH[p as usize]), &input, &r.out);
+            self.out.case(&fault_site(fam, p, i), &input, &r.out);
         }
         self.budget = self.budget.saturating_sub(1);
     }
@@ -590,10 +829,11 @@ fn main() {
         for (ti, shape) in all.iter().enumerate() {
             let variants = if n <= 3 { 3 } else { 1 };
             for var in 0..variants {
-                let mut r = Ren { rng: &mut rng, next_leaf: 1, next_cond: 101, conds: vec![], rich_conds: var == 2 || ti % 5 == 4, calm: false };
+                let mut r = Ren::new(&mut rng, var == 2 || ti % 5 == 4, false, (0, 1));
                 let tree = r.node(shape);
                 let conds = r.conds;
                 let pre_s = pre(&mut rng);
+                let mut first = true;
                 // every combination of canonical sequences for the primary leaf of each condition
                 let nc = conds.len();
                 let total: u64 = 8u64.pow(nc as u32);
@@ -613,6 +853,46 @@ fn main() {
                         }
                     }
                     em.with_faults("exh", &tree, &script, &pre_s, &mut rng, if a.thorough { 40 } else { 24 });
+                    if first || rng.chance(1, 8) {
+                        em.other_ways("exh", &tree, &script, &pre_s, &mut rng, 6);
+                        first = false;
+                    }
+                }
+            }
+        }
+    }
+    // 1a. hooked scopes (`Scope::new_with`): every small shape that contains a scope, the hooks scripted
+    for n in 2..=max_nodes {
+        let all = shapes(n, &mut memo);
+        for (ti, shape) in all.iter().enumerate() {
+            if !has_scope(shape) { continue; }
+            let variants = if n <= 3 { 6 } else if a.thorough { 3 } else { 2 };
+            for var in 0..variants {
+                let mut r = Ren::new(&mut rng, var % 3 == 2 || ti % 5 == 4, false, (7, 8));
+                let tree = r.node(shape);
+                if r.n_hooks == 0 { continue; }
+                let conds = r.conds;
+                let pre_s = pre(&mut rng);
+                let nc = conds.len();
+                let total: u64 = 8u64.pow(nc as u32);
+                let cap = if a.thorough { 32 } else { 8 };
+                let idxs: Vec<u64> = if total <= cap { (0..total).collect() } else { (0..cap).map(|_| rng.below(total)).collect() };
+                for mut ix in idxs {
+                    let mut script = vec![];
+                    for c in &conds {
+                        let seq = SEQS[(ix % 8) as usize];
+                        ix /= 8;
+                        let (id, d) = c.leaves[0];
+                        let vals: Vec<bool> = seq.iter().map(|v| *v != d).collect();
+                        script.push(script_entry(id, d, &vals));
+                        for (id2, d2) in &c.leaves[1..] {
+                            let l = rng.below(4) as usize;
+                            let vals: Vec<bool> = (0..l).map(|_| rng.chance(1, 2)).collect();
+                            script.push(script_entry(*id2, *d2, &vals));
+                        }
+                    }
+                    em.with_faults("hook", &tree, &script, &pre_s, &mut rng, if a.thorough { 40 } else { 24 });
+                    if rng.chance(1, 6) { em.other_ways("hook", &tree, &script, &pre_s, &mut rng, 6); }
                 }
             }
         }
@@ -622,7 +902,7 @@ fn main() {
         let all = shapes(6, &mut memo);
         for _ in 0..6000 {
             let shape = rng.pick(&all).clone();
-            let mut r = Ren { rng: &mut rng, next_leaf: 1, next_cond: 101, conds: vec![], rich_conds: true, calm: false };
+            let mut r = Ren::new(&mut rng, true, false, (1, 3));
             let tree = r.node(&shape);
             let conds = r.conds;
             let mut script = vec![];
@@ -646,7 +926,7 @@ fn main() {
         let sz = size(&shape);
         if !(20..=70).contains(&sz) { continue; }
         made += 1;
-        let mut r = Ren { rng: &mut rng, next_leaf: 1, next_cond: 101, conds: vec![], rich_conds: true, calm: true };
+        let mut r = Ren::new(&mut rng, true, true, if made % 2 == 0 { (1, 2) } else { (0, 1) });
         let tree = r.node(&shape);
         let conds = r.conds;
         let mut script = vec![];
@@ -660,6 +940,7 @@ fn main() {
         }
         let pre_s = pre(&mut rng);
         em.with_faults("rand", &tree, &script, &pre_s, &mut rng, if a.thorough { 10 } else { 8 });
+        if made % 2 == 0 { em.other_ways("rand", &tree, &script, &pre_s, &mut rng, 3); }
     }
     em.out.finish();
 }
